@@ -765,6 +765,7 @@ pub fn run(_args: &[String]) -> i32 {
 			max_depth: if thorough { 5 } else { 3 },
 			wall: Duration::from_secs(if thorough { 1500 } else { 22 }),
 			max_states: 80_000,
+			min_depth: 2,
 		};
 		let tag = format!("base{}", base);
 		let e = explore(&m, &format!("c04-{}", tag), &caps);
